@@ -146,22 +146,24 @@ def no_escape(m, run):
         if s is None:
             continue
         stores = [x for x in walk_no_nested(fi.node) if isinstance(x, ast.Assign) and any(
-            ('_control_points' in norm(t) and '_size' not in norm(t) and '2D' not in norm(t)) or norm(t).startswith('self._cache[') for t in x.targets)]
+            ('_control_points' in norm(t) and '_size' not in norm(t)) or norm(t).startswith('self._cache[') for t in x.targets)]
         if not stores:
             continue
         n += 1
         bad = []
         for node, tgt, esc in s.escapes:
-            if not (('_control_points' in tgt and '_size' not in tgt and '2D' not in tgt) or tgt.startswith('self._cache[')):
+            if not (('_control_points' in tgt and '_size' not in tgt) or tgt.startswith('self._cache[')):
                 continue
             pointlike = 'weights' not in tgt
-            hit = sorted((r, l) for r, l in esc if l == 0 or (l == 1 and pointlike))
+            grid = '2D' in tgt       # [u][v] grid of points: the points themselves sit two levels down
+            hit = sorted((r, l) for r, l in esc if l == 0 or (l == 1 and pointlike) or (l == 2 and grid))
             if hit:
                 bad.append((node, tgt, hit))
         run.ob('ES1.views-own-their-storage', fi.key, not bad,
                'values stored into the control point views are fresh structures' if not bad else
                '`%s` may store %s: the object then shares this list with the caller, whose later edits change this view but not the other two'
                % (bad[0][1], ', '.join('%s%s' % (r[6:], ' itself' if l == 0 else "'s elements") for r, l in bad[0][2])), site(fi, bad[0][0] if bad else None))
+    return n
     for ck in (('BSpline', 'Curve'), ('NURBS', 'Curve'), ('BSpline', 'Surface'), ('NURBS', 'Surface'), ('BSpline', 'Volume'), ('NURBS', 'Volume')):
         st = m.lookup(ck, 'ctrlpts', 'setters')
         ok = st is not None and st.key != 'abstract.SplineGeometry.ctrlpts#setter'
